@@ -2,7 +2,6 @@
 from vlib.core import Query, Plan
 
 R = "vlib.cbmc:cbmc_query"
-RNEG = "harness.C09.negctl:negctl_query"
 H = "harness/C09/h_ec.c"
 U = ["erasure_code/ec_base.c"]
 
@@ -15,17 +14,49 @@ def rs_documented_safe(m, k):
 def plan(tier, ctx):
     quick = tier == "quick"
     qs = []
-    # (0) the entry sets are subfields
+    # (0) the entry sets are subfields of GF(2^8)/0x11D
     for f in (2, 4, 16):
-        qs.append(Query("SUBFIELD/gf%d" % f, R, dict(harness=H, units=[], hdefines=["H_SUBFIELD", "FIELD=%d" % f],
-                                                    unwind=17, witness=True), core=True, family="SUBFIELD"))
-    # (a) inversion over subfields
-    inv = [(2, 16, 2, True), (3, 4, 3, True), (4, 2, 4, True), (2, 4, 2, False), (3, 2, 3, False), (2, 2, 2, False), (1, 16, 1, False)]
-    if not quick:
-        inv += [(5, 2, 5, False), (3, 16, 3, False), (4, 4, 4, False)]
-    for (n, f, detmax, core) in inv:
+        qs.append(Query("SUBFIELD/gf%d" % f, R, dict(harness=H, units=[], hdefines=["H_SUBFIELD", "FIELD=%d" % f], unwind=17, witness=True),
+                        core=True, family="SUBFIELD"))
+    # (a) inversion: ALL n x n matrices with entries in a subfield, real log/antilog tables
+    # core = decided with >= 3x margin under the quick cap; 3x3/GF(4) and 4x4/GF(2) need ~2 min each on an idle machine
+    inv = [(2, 16, True), (3, 2, True), (2, 4, True), (2, 2, False), (1, 16, False), (3, 4, False), (4, 2, False)]
+    for (n, f, core) in inv:
         qs.append(Query("INVERT/n%d_gf%d" % (n, f), R,
-                        dict(harness=H, units=U, hdefines=["H_INVERT", "N=%d" % n, "FIELD=%d" % f, "DETMAX=%d" % detmax],
-                             unwind=max(17, n * n + 1), witness=True, timeout=None if quick else 1200),
-                        core=core, family="INVERT", weight=20))
-    return Plan("C09", "model_checking", qs)
+                        dict(harness=H, units=U, hdefines=["H_INVERT", "N=%d" % n, "FIELD=%d" % f, "DETMAX=4"], unwind=max(17, n * n + 1),
+                             witness=core, timeout=900), core=core, family="INVERT", weight=30 if core else 5))
+    if not quick:
+        # larger instances with the scalar leaves replaced by the specification (lemma: C12)
+        for (n, f) in ((5, 2), (3, 16), (4, 4)):
+            qs.append(Query("INVERT/leaf/n%d_gf%d" % (n, f), R,
+                            dict(harness=H, units=[], hdefines=["H_INVERT", "N=%d" % n, "FIELD=%d" % f, "DETMAX=5", "LEAF"], unwind=max(17, n * n + 1),
+                                 witness=False, timeout=1800, mem_gb=24), core=False, family="INVERT", weight=60))
+    # (b) generator matrices: identity top block and the documented coefficient formula at a symbolic (i,j)
+    cau = [(12, 8), (32, 16), (256, 2), (256, 10), (255, 3)] if quick else [(12, 8), (32, 16), (64, 32), (128, 8), (256, 2), (256, 10), (256, 16), (255, 3), (200, 100)]
+    rsm = [(14, 4), (20, 3), (11, 2), (30, 10)] if quick else [(14, 4), (20, 3), (11, 2), (30, 10), (40, 20), (64, 3), (25, 4), (32, 16)]
+    for kind, lst in (("CAUCHY", cau), ("RS", rsm)):
+        for (m, k) in lst:
+            qs.append(Query("GEN/%s/m%d_k%d" % (kind, m, k), R,
+                            dict(harness=H, units=U, hdefines=["H_GEN_" + kind, "M=%d" % m, "K=%d" % k], unwind=m * k + 2, witness=(m, k) in ((12, 8), (14, 4)),
+                                 timeout=600), core=(m, k) in ((12, 8), (14, 4)), family="GEN/" + kind, weight=m * k / 50.0))
+    # (c) recovery: k symbolic strictly increasing survivor rows (the erasure pattern), decode matrix built as
+    #     examples/ec/ec_simple_example.c does, real gf_invert_matrix: success and inv*B == I
+    rec_c = [(4, 2), (5, 3), (6, 3), (6, 4), (8, 4), (9, 3)] if quick else [(4, 2), (5, 3), (6, 3), (6, 4), (8, 4), (9, 3), (10, 5), (12, 4), (10, 6), (12, 6), (16, 3)]
+    rec_r = [(m, k) for (m, k) in ([(4, 2), (6, 3), (8, 4), (9, 5), (7, 4)] if quick else [(4, 2), (6, 3), (8, 4), (9, 5), (10, 5), (7, 4), (12, 3), (12, 8), (25, 4)]) if rs_documented_safe(m, k)]
+    for gen, lst in (("GEN_CAUCHY", rec_c), ("GEN_RS", rec_r)):
+        for (m, k) in lst:
+            big = m >= 9
+            qs.append(Query("RECOVER/%s/m%d_k%d" % (gen[4:], m, k), R,
+                            dict(harness=H, units=[] if big else U, hdefines=["H_RECOVER", "M=%d" % m, "K=%d" % k, gen] + (["LEAF"] if big else []),
+                                 unwind=m * k + 2, witness=(m, k) == (6, 3), timeout=900, mem_gb=16), core=(m, k) == (6, 3), family="RECOVER/" + gen[4:], weight=m * k))
+    return Plan("C09", "model_checking", qs, engine="cbmc-c",
+                functions_encoded=["gf_invert_matrix", "gf_gen_cauchy1_matrix", "gf_gen_rs_matrix", "gf_mul", "gf_inv (erasure_code/ec_base.c)"],
+                bounds={"inversion": "ALL n x n matrices with entries in a subfield: 2x2/GF(16), 3x3/GF(4), 4x4/GF(2) (+ 5x5/GF(2), 3x3/GF(16), 4x4/GF(4) thorough); "
+                                     "ret in {0,-1}; ret==0 <=> det != 0 (cofactor determinant); ret==0 => A*out == out*A == I; nothing written past n*n",
+                        "generators": {"cauchy (m,k)": cau, "rs (m,k)": rsm, "position": "symbolic (i,j)"},
+                        "recovery": {"cauchy (m,k)": rec_c, "rs (m,k), documented-safe only": rec_r, "erasure pattern": "k symbolic strictly increasing survivor indices"}},
+                stubs=["for m >= 9 in RECOVER (and the thorough INVERT/leaf queries) gf_mul/gf_inv are computed by spec/gf256.h through spec/ec_base_leaf.h; justified by C12's exhaustive lemmas; native replay uses the unmodified ec_base.c"],
+                assumptions=["the three entry sets are subfields (checked: SUBFIELD queries)", "C12 (for the LEAF-abstracted queries)"],
+                outside=["inversion over all of GF(2^8) for n >= 2 (measured: 2x2 undecided in 900 s on five back ends)", "n up to 128, m up to 256 in recovery, the full documented-safe (m,k) table",
+                         "block contents (the recovery of data bytes then follows from C03/C12 linearity)"],
+                trusted_base=["cbmc 6.11", "spec/gf256.h"])
